@@ -24,6 +24,7 @@ func main() {
 	explain := flag.String("explain", "", "replay file: re-run that property and print the obligation")
 	list := flag.Bool("list", false, "list all obligations")
 	sites := flag.String("sites", "", "development: pkgs:callees, print site table rows")
+	panics := flag.String("panics", "", "development: root function, print panic sites in its closure")
 	flag.Parse()
 
 	vd := *verif
@@ -61,7 +62,7 @@ func main() {
 	}
 	seed, _ := strconv.Atoi(os.Getenv("VERIF_SEED"))
 	p, ok := props.Registry[*prop]
-	if !ok && *sites == "" {
+	if !ok && *sites == "" && *panics == "" {
 		var ids []string
 		for k := range props.Registry {
 			ids = append(ids, k)
@@ -87,6 +88,11 @@ func main() {
 	ctx.P = prog
 	if *sites != "" {
 		props.DumpSites(prog, *sites)
+		return
+	}
+	if *panics != "" {
+		props.DumpPanics(prog, *panics)
+		props.DumpDefaultPanics(prog, *panics)
 		return
 	}
 	var full *core.Prog
